@@ -14,3 +14,5 @@ CONSTANTS
   StopForgetsParts = TRUE
   DropRemembered = TRUE
   MayStartAgain = TRUE
+  PartsDroppedAtStart <- NoParts
+  SynthPartSkipped = FALSE
